@@ -477,6 +477,52 @@ Section SessionEnv.
     end.
 End SessionEnv.
 
+(* Overlapping requests.  vouch makes its requests to the one signer service from many goroutines;
+   an account call (a lock, a remote signer, a threshold of peers) can take long, and other requests
+   enter and leave the service meanwhile.  An execution is a list of events: [EStart k] -- the k-th
+   request enters the service and reads its fields; [EFinish k] -- its account calls are answered
+   (by the node and the signers as they answer for THAT request) and it returns.  In the code every
+   argument of an account call is a value of the request's own: the object root and the domain are
+   local arrays of the call frame, the signing root is the array that [HashTreeRoot] returns, the
+   per-account data of a batch call are slices of arrays made for that call; no [Sign*] method or
+   helper writes a field of [Service] or a package variable.  So the model of a request in flight is
+   the service as the request read it, and the shared service after an event is the service as
+   [handle_env] returns it (unchanged).  Events of requests that were never started, or that do not
+   exist, are ignored. *)
+Inductive event := EStart (k : nat) | EFinish (k : nat).
+
+Section Overlap.
+  Variable H : N -> N -> N.
+  Variable sig : Type.
+  Variable zero_sig : sig.
+
+  Fixpoint in_flight (k : nat) (fl : list (nat * service)) : option service :=
+    match fl with
+    | [] => None
+    | (j, Sv) :: r => if Nat.eqb j k then Some Sv else in_flight k r
+    end.
+
+  Fixpoint land (k : nat) (fl : list (nat * service)) : list (nat * service) :=
+    match fl with
+    | [] => []
+    | (j, Sv) :: r => if Nat.eqb j k then r else (j, Sv) :: land k r
+    end.
+
+  Fixpoint run_overlapped (Sv : service) (qs : list (provider * env sig * request))
+           (fl : list (nat * service)) (evs : list event) : list (nat * res (list sig)) :=
+    match evs with
+    | [] => []
+    | EStart k :: r => run_overlapped Sv qs ((k, Sv) :: fl) r
+    | EFinish k :: r =>
+        match in_flight k fl, nth_error qs k with
+        | Some Svk, Some peq =>
+            let (out, _) := handle_env H sig zero_sig Svk peq in
+            (k, out) :: run_overlapped (snd (handle_env H sig zero_sig Sv peq)) qs (land k fl) r
+        | _, _ => run_overlapped Sv qs fl r
+        end
+    end.
+End Overlap.
+
 (* ------------------------------------------------------------------------------------------ *)
 (* The specification side: the duty messages, and what the consensus / builder specs sign.      *)
 
